@@ -277,9 +277,12 @@ class Quote(BlockToken):
             next_line = lines.peek()
 
         # parse child block tokens
+        saved_parse_setext = Paragraph.parse_setext
         Paragraph.parse_setext = False
-        parse_buffer = tokenizer.tokenize_block(line_buffer, _token_types, start_line=start_line)
-        Paragraph.parse_setext = True
+        try:
+            parse_buffer = tokenizer.tokenize_block(line_buffer, _token_types, start_line=start_line)
+        finally:
+            Paragraph.parse_setext = saved_parse_setext
         return parse_buffer
 
     @staticmethod
